@@ -2,7 +2,7 @@ use harper_core::Lrc;
 use harper_core::Token;
 use harper_core::parsers::{Markdown, MarkdownOptions, Parser};
 
-use super::without_initiators;
+use super::{Unit, without_initiators};
 
 #[derive(Clone)]
 pub struct Go {
@@ -21,33 +21,28 @@ impl Go {
 
 impl Parser for Go {
     fn parse(&self, source: &[char]) -> Vec<Token> {
-        let mut actual = without_initiators(source);
-        let mut actual_source = actual.get_content(source);
+        let actual = without_initiators(source);
+        let actual_source = actual.get_content(source);
+
+        // A `//go:` directive occupies the first line of the comment; skip it.
+        let mut start = 0;
 
         if matches!(actual_source, ['g', 'o', ':', ..]) {
             let Some(terminator) = source.iter().position(|c| *c == '\n') else {
                 return Vec::new();
             };
 
-            actual.start += terminator;
-
-            // Nothing is left after the directive.
-            if actual.start > actual.end {
-                return Vec::new();
-            }
-
-            let Some(new_source) = actual.try_get_content(actual_source) else {
-                return Vec::new();
-            };
-
-            actual_source = new_source
+            start = terminator + 1;
         }
 
-        let mut new_tokens = self.inner.parse(actual_source);
+        // The rest is an ordinary run of line comments: handle it line by line, like every other
+        // language, so that comment markers and indentation on later lines never reach the
+        // Markdown parser.
+        let mut new_tokens = Unit::new(self.inner.clone()).parse(&source[start..]);
 
         new_tokens
             .iter_mut()
-            .for_each(|t| t.span.push_by(actual.start));
+            .for_each(|t| t.span.push_by(start));
 
         new_tokens
     }
